@@ -42,15 +42,33 @@ def run(ctx, rep):
 
         def __init__(self):
             self.is_expired = False
+            self.built_from = []
 
         def expired(self):
             return self.is_expired
 
+    class _Conn:
+        """the connection as the result object sees it: its configuration (library defaults) and nothing else"""
+        mi_native = True
+
+        def __init__(self):
+            self._config = dict(ctx.const(K.PROTO, "DEFAULT_CONFIG") or {})
+
+        def __eq__(self, o):
+            return o == "CONN" or o is self
+
+        def __hash__(self):
+            return hash("CONN")
+
     def fresh_result():
         ttl = _TTL()
         state = {}
-        extra = {"__calls__": {"Timeout": lambda *a: ttl}, "__methods__": meths, "__max_iter__": 200}
-        MI.call_method(meths["__init__"], state, ["CONN"], extra)
+
+        def mk(*a):
+            ttl.built_from.append(a)
+            return ttl
+        extra = {"__calls__": {"Timeout": mk}, "__methods__": meths, "__max_iter__": 200}
+        MI.call_method(meths["__init__"], state, [_Conn()], extra)
         return state, ttl, extra
 
     def add_cb(state, extra, fn):
@@ -63,6 +81,13 @@ def run(ctx, rep):
         return {k: state.get(k) for k in ("_is_ready", "_is_exc", "_obj")}
     bad1, bad3 = [], []
     try:
+        # (0) a new result has no deadline of its own: only set_expiry() gives it one
+        state, ttl, extra = fresh_result()
+        finite = [a for a in ttl.built_from if a != (None,)]
+        rep.ob("R15.1", "AsyncResult.__init__: a new result has no deadline until set_expiry() is called", not finite,
+               "its expiry is built from `None`" if not finite else
+               "a new result starts with the deadline Timeout(%s): a reply to a plain asynchronous request arriving after it is "
+               "discarded" % ", ".join(repr(x) for x in finite[0]), arc.methods["__init__"].loc)
         # (a) callbacks registered before the reply: each once, in order, with the result object; the list ends empty
         state, ttl, extra = fresh_result()
         log = []
@@ -150,7 +175,11 @@ def run(ctx, rep):
             if ready_after is None and expire_after is None:
                 continue
             rows_w += 1
-            state = {"_is_ready": ready_after == 0, TTL: "TTL", "_conn": "CONN"}
+            try:
+                state = fresh_result()[0]      # every field as __init__ leaves it
+            except (MI.Raised, AnalysisError):
+                state = {}
+            state.update({"_is_ready": ready_after == 0, TTL: "TTL", "_conn": "CONN"})
             served = []
 
             def serve(*a, state=state, served=served, ready_after=ready_after):
